@@ -1788,6 +1788,24 @@ std::string op(std::vector<std::string> const &t)
                                   }});
     return show(fe::first_success(fns));
   }
+  if (o == "e.looplong" && n == 3)
+  {
+    // many successes before the failure: the loop must iterate, not recurse (stack depth independent of the number of iterations)
+    long long const count = vh::to_ll(t[1]);
+    long long const fail = vh::to_ll(t[2]);
+    if (count < 0 || count > 2000000 || fail < 0 || fail > 2)
+      throw bad_op{};
+    long long calls = 0;
+    long long sum = 0;
+    E const r{fe::loop(
+        [&calls, count, fail]() -> eA
+        {
+          long long const c = calls++;
+          return c < count ? eA{A{static_cast<int>(c % 3)}} : eA{E{static_cast<int>(fail)}};
+        },
+        [&sum](A a) { sum += a.v(); })};
+    return "F" + std::to_string(r.v()) + " calls=" + std::to_string(calls) + " sum=" + std::to_string(sum);
+  }
   if (o == "e.loop" && (n == 2 || n == 3))
   {
     std::vector<eA> const l{tok<std::vector<eA>>(t[1])};
